@@ -1,7 +1,7 @@
 #!/bin/bash
 # Re-runs every claimed quick check on the clean tree so that the committed evidence comes from clean-tree runs.
-cd /verif
-git -C /repo diff --quiet || { echo "/repo not clean"; exit 2; }
+cd "$(dirname "$0")/.."
+git -C ${VERIF_REPO:-/repo} diff --quiet || { echo "/repo not clean"; exit 2; }
 for p in $(python3 -c "import json;print(' '.join(c['property_id'] for c in json.load(open('MANIFEST.json'))['checks']))"); do
   ./check $p --tier quick > /tmp/refresh_$p.out 2> /tmp/refresh_$p.err; echo "$p rc=$? $(tail -1 /tmp/refresh_$p.err)"
 done
